@@ -18,6 +18,7 @@ import (
 	"math"
 	"sort"
 	"strconv"
+	"strings"
 
 	"github.com/tobgu/qframe"
 	"github.com/tobgu/qframe/config/csv"
@@ -36,12 +37,12 @@ var errInjected = errors.New("injected read failure")
 // schedReader delivers data in the chunk sizes of sched (then everything), optionally reporting EOF together with
 // the last data, and optionally failing on call number failAt (0-based).
 type schedReader struct {
-	data        []byte
-	sched       []int
-	pos         int
-	calls       int
-	failAt      int
-	eofWithData bool
+	data         []byte
+	sched        []int
+	pos          int
+	calls        int
+	failAt       int
+	eofWithData  bool
 	failWithData bool // the failing call still delivers its bytes (io.Reader allows n > 0 together with an error)
 }
 
@@ -476,9 +477,37 @@ func csvReadSection(r *tx.Rng, w *tx.W, size int, opt map[string]string) {
 	}
 	typs := map[string]string{}
 	enums := map[string][]string{}
+	enumBias := !big && enumCard == 0 && r.P(1, 4) // some documents: most columns declared enum, runs of equal values around empty cells
+	if enumBias && r.P(2, 3) {
+		d = csvDoc{delim: ','}
+		nc := 1 + r.Intn(3)
+		hdr := []string{"p", "q", "r"}[:nc]
+		d.cells = append(d.cells, hdr)
+		for i, nr := 0, 4+r.Intn(8); i < nr; i++ {
+			row := make([]string, nc)
+			for c := range row {
+				row[c] = []string{"a", "", "a", "b", "", "a"}[r.Intn(6)]
+			}
+			if nc == 1 && row[0] == "" {
+				row[0] = "a" // a bare empty line is a record separator question of its own
+			}
+			d.cells = append(d.cells, row)
+		}
+		for _, row := range d.cells {
+			d.doc = append(d.doc, strings.Join(row, ",")...)
+			d.doc = append(d.doc, '\n')
+		}
+		ncols = nc
+		emptyNull = r.P(3, 4)
+		headers = nil
+		names = hdr
+	}
 	for _, n := range names {
-		if r.P(1, 4) {
+		if r.P(1, 4) || enumBias {
 			t := []string{"int", "float", "bool", "string", "enum"}[r.Intn(5)]
+			if enumBias && r.P(3, 4) {
+				t = "enum"
+			}
 			typs[n] = t
 			if t == "enum" && r.P(1, 2) {
 				enums[n] = []string{"a", "b", "zz", "ab", ""}
